@@ -77,6 +77,67 @@ func (c *c19PanicErr) Error() string { panic("error boom") }
 
 type c19Box struct{ X interface{} }
 
+type c19CountStr struct{ k int }
+
+func (c *c19CountStr) String() string { c19Rec("!str"); return "cs" }
+
+// c19ReStr: String() makes ONE nested call of the scenario's mocked function (bounded re-entry while the log line is rendered).
+type c19ReStr struct{ k int }
+
+var (
+	c19ReHook  func()
+	c19ReDepth int
+)
+
+func (c *c19ReStr) String() string {
+	if c19ReHook != nil && c19ReDepth == 0 {
+		c19ReDepth++
+		c19Rec("!re{")
+		func() {
+			defer func() { recover() }()
+			c19ReHook()
+		}()
+		c19Rec("}!")
+		c19ReDepth--
+	}
+	return "rs"
+}
+
+type c19CountErr struct{ k int }
+
+func (c *c19CountErr) Error() string { c19Rec("!err"); return "ce" }
+
+// c19R is a receiver whose String() calls the very method that gets mocked.
+type c19R struct{ k int }
+
+//go:noinline
+func (r *c19R) Val(a int, b string) int {
+	c19Rec("orig(%d,%s)", a, c19Str(b))
+	return 9000 + a + len(b)
+}
+
+func (r *c19R) String() string { return "R" + strconv.Itoa(r.Val(0, "")) }
+
+var c19Void int
+
+//go:noinline
+func c19F0(a int) {
+	c19Rec("orig(%d)", a)
+	c19Void += a
+}
+
+//go:noinline
+func c19LibTarget(s string) string {
+	c19Void++
+	return "o" + s
+}
+
+//go:noinline
+func c19LibOuter(s string) string {
+	c19Void += 2
+	return "O" + s
+}
+
 type c19Tree struct {
 	Name string
 	Kids []c19Tree
@@ -114,6 +175,9 @@ func c19Init() {
 	c19Zoo[13] = c19Deep{I: (*c19Deep)(nil), E: (*c19PanicErr)(nil)}
 	c19Zoo[14] = (*c19PanicErr)(nil)
 	c19Zoo[15] = struct{}{}
+	c19Zoo[16] = &c19CountStr{}        // String() records an event: fmt runs user code (finding F27)
+	c19Zoo[17] = error(&c19CountErr{}) // Error() records an event
+	c19Zoo[18] = &c19ReStr{}           // String() calls the mocked function once more
 	// the slice/map cycles of finding F13 (fmt recurses without bound): only ever sent in isolated child processes
 	s := []interface{}{nil}
 	s[0] = s
@@ -323,13 +387,14 @@ func c19Rec(format string, a ...interface{}) { c19Events = append(c19Events, fmt
 
 // c19Wrapped notes whether the running callback was reached through interceptDebugInfo's MakeFunc wrapper.
 func c19Wrapped() {
-	pcs := make([]uintptr, 48)
+	// mechanism-neutral: a directly installed callback is entered by a jump from the target, a wrapped one through reflect
+	pcs := make([]uintptr, 160)
 	n := runtime.Callers(2, pcs)
 	fr := runtime.CallersFrames(pcs[:n])
 	w := byte('0')
 	for {
 		f, more := fr.Next()
-		if strings.Contains(f.Function, "interceptDebugInfo") {
+		if strings.HasPrefix(f.Function, "reflect.") {
 			w = '1'
 		}
 		if strings.Contains(f.Function, "c19Call") || !more {
@@ -412,7 +477,7 @@ func (s *c19Impl) V(p string, xs ...int) int {
 }
 
 // shape of a target's parameter list (without receiver): I int, S string, P *node, A interface{}, V ...int
-var c19Shapes = map[string]string{"f2": "IS", "fv": "V", "fm": "SV", "fp": "PA", "fa": "A", "ms": "IS", "mv": "SV", "ia": "IS", "iv": "SV", "ip": "PA", "it": "I", "ow": "", "ox": "I", "oz": "I"}
+var c19Shapes = map[string]string{"f2": "IS", "fv": "V", "fm": "SV", "fp": "PA", "fa": "A", "ms": "IS", "mv": "SV", "ia": "IS", "iv": "SV", "ip": "PA", "it": "I", "ow": "", "ox": "I", "oz": "I", "f0": "I", "rs": "IS"}
 
 type c19Scn struct {
 	tgt   string
@@ -445,6 +510,10 @@ func (c *c19Scn) mocker() ExportedMocker {
 		return c.mock.Func(c19OX).Origin(&c19OrigX)
 	case "oz":
 		return c.mock.Func(c19OZ).Origin(&c19OrigZ)
+	case "f0":
+		return c.mock.Func(c19F0)
+	case "rs":
+		return c.mock.Struct(&c19R{}).Method("Val")
 	case "ms":
 		return c.mock.Struct(&c19S{}).Method("M")
 	case "mv":
@@ -543,6 +612,10 @@ func (c *c19Scn) callback(cb string) interface{} {
 		return func(v interface{}) int { return body(c19DescAny(v), 0) }
 	case "it": // must not call strconv.Itoa itself
 		return func(i int) string { return fmt.Sprint(body(fmt.Sprint(i), i)) }
+	case "f0":
+		return func(a int) { body(fmt.Sprint(a), a) }
+	case "rs":
+		return func(r *c19R, a int, b string) int { return is(a, b) }
 	case "ms":
 		return func(s *c19S, a int, b string) int { return is(a, b) }
 	case "mv":
@@ -559,6 +632,9 @@ func (c *c19Scn) callback(cb string) interface{} {
 
 // values parses a comma list of result values for the target (Return/Returns arguments).
 func (c *c19Scn) results(s string) []interface{} {
+	if s == "-" && c.tgt == "f0" {
+		return nil // Return() without values
+	}
 	parts := strings.Split(s, ",")
 	out := make([]interface{}, len(parts))
 	for i, p := range parts {
@@ -613,6 +689,8 @@ func c19Class(r interface{}) string {
 	switch {
 	case strings.HasPrefix(msg, "boom"):
 		return msg
+	case strings.Contains(msg, "of non-func type"):
+		return "reflect-nonfunc"
 	case strings.Contains(msg, "no suitable condition"):
 		return "nosuitable"
 	case strings.Contains(msg, "nil pointer dereference"):
@@ -637,6 +715,7 @@ func c19Class(r interface{}) string {
 func (c *c19Scn) c19Call(a []interface{}) (res string) {
 	defer func() {
 		if r := recover(); r != nil {
+			c19PTag(r)
 			res = "->p:" + c19Class(r)
 		}
 	}()
@@ -697,6 +776,11 @@ func (c *c19Scn) c19Call(a []interface{}) (res string) {
 			}
 			c19Rec("orig(%s)", d)
 		}
+	case "f0":
+		c19F0(a[0].(int))
+		return "->r:"
+	case "rs":
+		r = (&c19R{}).Val(a[0].(int), a[1].(string))
 	case "ms":
 		r = c.recv.M(a[0].(int), a[1].(string))
 	case "mv":
@@ -730,9 +814,26 @@ func c19Fault(f func()) {
 	f()
 }
 
+var c19PTags []byte
+
+// c19PTag notes the dynamic kind of a panic value: s string, r runtime.Error, e other error, o anything else.
+func c19PTag(r interface{}) {
+	t := byte('o')
+	switch r.(type) {
+	case string:
+		t = 's'
+	case runtime.Error:
+		t = 'r'
+	case error:
+		t = 'e'
+	}
+	c19PTags = append(c19PTags, t)
+}
+
 func c19Guard(f func()) (res string) {
 	defer func() {
 		if r := recover(); r != nil {
+			c19PTag(r)
 			res = "panic:" + c19Class(r)
 		}
 	}()
@@ -763,9 +864,18 @@ func c19RunScenario(toks []string, logf *os.File) string {
 		return "bad-op"
 	}
 	c := &c19Scn{tgt: toks[2], mock: Create(), recv: &c19S{}, ivar: &c19Impl{}, shape: shape}
-	c19Events, c19Wraps = nil, nil
+	c19Events, c19Wraps, c19PTags = nil, nil, nil
+	c19ReDepth, c19ReHook = 0, nil
+	switch c.tgt {
+	case "fp":
+		c19ReHook = func() { c19FP(nil, 5) }
+	case "ip":
+		c19ReHook = func() { c.ivar.P(nil, 5) }
+	case "fa":
+		c19ReHook = func() { c19FA(5) }
+	}
+	L := 0
 	logf.Seek(0, 0)
-	logStart := int64(0)
 	var T []string
 	for _, op := range c19SplitOps(toks[3:]) {
 		if len(op) == 0 {
@@ -776,6 +886,8 @@ func c19RunScenario(toks []string, logf *os.File) string {
 		switch {
 		case op[0] == "apply" && len(op) == 2:
 			r = c19Guard(func() { c.mocker().Apply(c.callback(op[1])) })
+		case op[0] == "applybad" && len(op) == 1:
+			r = c19Guard(func() { c.mocker().Apply(42) })
 		case op[0] == "ret" && len(op) == 2:
 			r = c19Guard(func() { c.mocker().Return(c.results(op[1])...) })
 		case op[0] == "when" && len(op) == 3:
@@ -796,7 +908,13 @@ func c19RunScenario(toks []string, logf *os.File) string {
 			if n := len(shape); len(a) < n-1 || ((n == 0 || shape[n-1] != 'V') && len(a) != n) {
 				return "bad-op"
 			}
+			p0, _ := logf.Seek(0, 1)
 			res := c.c19Call(a)
+			if p1, _ := logf.Seek(0, 1); p1 > p0 { // console lines written while the call ran (wording is free)
+				buf := make([]byte, p1-p0)
+				logf.ReadAt(buf, p0)
+				L += bytes.Count(buf, []byte("\n"))
+			}
 			r = strings.Join(c19Events, "") + res
 		case op[0] == "cancel" && len(op) == 1:
 			r = c19Guard(func() { c.mock.Reset() })
@@ -823,18 +941,17 @@ func c19RunScenario(toks []string, logf *os.File) string {
 		T = append(T, r)
 	}
 	c19Guard(func() { c.mock.Reset() })
-	// count the call-log lines this scenario produced
-	end, _ := logf.Seek(0, 1)
-	buf := make([]byte, end-logStart)
-	logf.ReadAt(buf, logStart)
-	L := bytes.Count(buf, []byte("] called, args ["))
 	logf.Truncate(0) // the log text is never compared; keep the file small
 	logf.Seek(0, 0)
 	w := string(c19Wraps)
 	if w == "" {
 		w = "-"
 	}
-	return fmt.Sprintf("T=%s W=%s L=%d", strings.Join(T, "|"), w, L)
+	pt := string(c19PTags)
+	if pt == "" {
+		pt = "-"
+	}
+	return fmt.Sprintf("T=%s P=%s W=%s L=%d", strings.Join(T, "|"), pt, w, L)
 }
 
 // ---- SprintV lane ------------------------------------------------------------------------------------------------
@@ -936,6 +1053,12 @@ func c19RunLib(fn string) (res string) {
 		}
 		return "?"
 	}
+	if strings.HasPrefix(fn, "sites") {
+		if fn != "sites"+strconv.Itoa(len(c19Sites)) {
+			return "bad-op"
+		}
+		fn = "sites"
+	}
 	switch fn {
 	case "fmt.Print":
 		mock.Func(fmt.Print).Apply(func(a ...interface{}) (int, error) { n++; return 7, nil })
@@ -976,6 +1099,28 @@ func c19RunLib(fn string) (res string) {
 	case "filepath.Base":
 		mock.Func(filepath.Base).Apply(func(p string) string { n++; return "m" })
 		r = filepath.Base("/a/b")
+	case "byname.func": // the ExportFunc call site of interceptDebugInfo (mocker.go UnexportedFuncMocker.Apply)
+		mock.ExportFunc("c19LibTarget").Apply(func(s string) string { n++; return "m" })
+		r = c19LibTarget("x")
+	case "byname.method": // ExportStruct(..).Method(..) (UnexportedMethodMocker.Apply)
+		mock.ExportStruct("*c19S").Method("M").Apply(func(s *c19S, a int, b string) int { n++; return 7 })
+		r = one((&c19S{}).M(1, "s"))
+	case "two.nested": // two mockers alive; the callback of one calls the other mocked function
+		mock.Func(c19LibTarget).Apply(func(s string) string { n++; return "m" })
+		mock.Func(c19LibOuter).Apply(func(s string) string { n++; return c19LibTarget(s) })
+		r = c19LibOuter("x")
+	case "two.timenow": // time.Now mocked first, then another function: its log line calls the mocked time.Now
+		mock.Func(time.Now).Apply(func() time.Time { return time.Unix(1234567, 0) })
+		mock.Func(c19LibTarget).Apply(func(s string) string { n++; return "m" })
+		r = c19LibTarget("x")
+	case "sites": // one mocked function called from c19NSites distinct source lines (generated file)
+		mock.Func(c19LibTarget).Apply(func(s string) string { n++; return "m" })
+		r = "m"
+		for _, f := range c19Sites {
+			if f() != "m" {
+				r = "?"
+			}
+		}
 	case "time.Now/func", "time.Now/name", "time.Now/ret", "time.Now/as":
 		// time.Now through every handle kind; the logger calls time.Now itself (debug.go:14 excludes it from call logging),
 		// so only what OUR call sees is recorded, not how often the callback ran
@@ -1067,7 +1212,7 @@ func TestVerifC19(t *testing.T) {
 			if len(op.Toks) < 2 || op.Toks[1] != cfg {
 				continue
 			}
-			if os.Getenv("VERIF_C19_ISOLATED") == "" && (c19HasCycle(op.Toks) || (len(op.Toks) > 2 && (op.Toks[2] == "it" || op.Toks[2][0] == 'o'))) {
+			if os.Getenv("VERIF_C19_ISOLATED") == "" && (c19HasCycle(op.Toks) || (len(op.Toks) > 2 && (op.Toks[2] == "it" || op.Toks[2] == "rs" || op.Toks[2][0] == 'o'))) {
 				continue // slice/map cycles (F13) only run in a child process of their own
 			}
 			if dirty { // a previous scenario toggled the switches: put the process configuration back
